@@ -285,6 +285,21 @@ def case_from_json(j):
 witness_case = case_from_json
 
 
+_PARTNERS = None
+
+
+def _partner(i):
+    """index of the first row of the same rule/helper (second label component) with the opposite documented outcome, or None"""
+    global _PARTNERS
+    if _PARTNERS is None:
+        by = {}
+        for k, (lab, _, exp) in enumerate(_TABLE):
+            by.setdefault(lab.split(":")[1], {}).setdefault(exp is None, k)
+        _PARTNERS = by
+    lab, _, exp = _TABLE[i]
+    return _PARTNERS.get(lab.split(":")[1], {}).get(exp is not None)
+
+
 def run_case(i, tier):
     global _TABLE
     if _TABLE is None:
@@ -296,29 +311,46 @@ def run_case(i, tier):
     cnt["nontrivial"] += 1
     cnt["states"] += 1
     group = label.split(":")[0] + ":" + label.split(":")[1]
-    chooser.real_seed(0)
-    vkit.reset_steps()
-    res = None
-    try:
-        res = thunk()
-        got = None
-    except vkit.HorizonExceeded as e:
-        got = e
-    except Exception as e:
-        got = e
-    if exp is None:
-        if got is not None:
-            out["viols"].append({"sig": {"kind": "valid_request_rejected", "rule": group},
-                                 "msg": f"{label}: a valid request raised {type(got).__name__}: {got}", "case": case_json(i)})
-    else:
-        if got is None:
-            out["viols"].append({"sig": {"kind": "not_rejected", "rule": group},
-                                 "msg": f"{label}: accepted (returned {type(res).__name__}), documented error is {getattr(exp, '__name__', exp)}",
-                                 "case": case_json(i)})
-        elif not isinstance(got, exp):
-            out["viols"].append({"sig": {"kind": "wrong_error", "rule": group, "exc": type(got).__name__},
-                                 "msg": f"{label}: raised {type(got).__name__}: {got}; documented error is {getattr(exp, '__name__', exp)}",
-                                 "case": case_json(i)})
+    # cold: the request on its own.  warm: the same request straight after another request of the same rule / helper with
+    # the opposite documented outcome (a valid one before an invalid one, an invalid one - caught - before a valid one), so that
+    # validation state kept between calls (a cache of "already validated", a flag left behind by a caught error) is exercised.
+    partner = _partner(i)
+    for mode in ("cold", "warm"):
+        if mode == "warm":
+            if partner is None:
+                break
+            cnt["executions"] += 1
+            cnt["warm_sequences"] += 1
+            chooser.real_seed(0)
+            vkit.reset_steps()
+            try:
+                _TABLE[partner][1]()
+            except Exception:
+                pass
+        chooser.real_seed(0)
+        vkit.reset_steps()
+        res = None
+        try:
+            res = thunk()
+            got = None
+        except vkit.HorizonExceeded as e:
+            got = e
+        except Exception as e:
+            got = e
+        lab = label if mode == "cold" else f"{label} [after {_TABLE[partner][0]}]"
+        if exp is None:
+            if got is not None:
+                out["viols"].append({"sig": {"kind": "valid_request_rejected", "rule": group, "mode": mode},
+                                     "msg": f"{lab}: a valid request raised {type(got).__name__}: {got}", "case": case_json(i)})
+        else:
+            if got is None:
+                out["viols"].append({"sig": {"kind": "not_rejected", "rule": group, "mode": mode},
+                                     "msg": f"{lab}: accepted (returned {type(res).__name__}), documented error is {getattr(exp, '__name__', exp)}",
+                                     "case": case_json(i)})
+            elif not isinstance(got, exp):
+                out["viols"].append({"sig": {"kind": "wrong_error", "rule": group, "exc": type(got).__name__, "mode": mode},
+                                     "msg": f"{lab}: raised {type(got).__name__}: {got}; documented error is {getattr(exp, '__name__', exp)}",
+                                     "case": case_json(i)})
     if i % 97 == 0:
         out["sample"] = {"row": label, "expected": getattr(exp, "__name__", str(exp))}
     return out
